@@ -44,6 +44,20 @@ def check_one(mods_, spec, W, frac, strategy):
             tags = ['flathl'] if why == ['HL'] else ['forced-group-flat:' + '+'.join(why)]
             return ('forced-group-flat', json.dumps(LR.norm_out(eng))[:300],
                     'a group whose flat rendering contains a hard line / always_break is broken', tags)
+        # classification only: once a group is laid out flat across a literal hard line (the known finding), an
+        # always_break inside an align / hang of that group is hoisted by the engine's lazy normalisation over its
+        # siblings, and the text matches no assignment of the document as written.  Recognise that variant by matching
+        # against the document with contextual results normalised the way the engine does; it is the known finding only
+        # if every illegally flat group is flat across a hard line (the first forcing element in it is a literal hard line).
+        try:
+            m3, _ = LR.match(mods_, T.normalize_doc(doc), W, R, eng, trust_forced=False, normalize_ctx=True)
+        except Exception:      # noqa
+            m3 = None
+        if m3 is not None:
+            why = sorted({g['forced'] for g in m3.groups if g.get('illegal')})
+            if why == ['HL']:
+                return ('forced-group-flat', json.dumps(LR.norm_out(eng))[:300],
+                        'a group whose flat rendering contains a hard line / always_break is broken', ['flathl', 'hoisted-in-align'])
         return ('no-assignment-matches', json.dumps(LR.norm_out(eng))[:300],
                 'some assignment of flat/broken reproduces the output', ['kinds:' + ','.join(sorted(kinds_of(spec)))])
     # annotations: nesting
